@@ -211,6 +211,7 @@ func consts() {
 	fmt.Printf("Definition key_sep : N := %d%%N.\n", common.KEYSEP)
 	fmt.Printf("Definition max_key_size : N := %d%%N.\n", common.MaxKeySize)
 	fmt.Printf("Definition max_subkey_len : N := %d%%N.\n", common.MaxSubKeyLen)
+	fmt.Printf("Definition max_value_size : N := %d%%N.\n", rockredis.MaxValueSize)
 	fmt.Printf("Definition max_batch_num : N := %d%%N.\n", common.MAX_BATCH_NUM)
 	fmt.Printf("Definition max_bit_offset : N := %d%%N.\n", rockredis.MaxBitOffset)
 	fmt.Printf("Definition geo_long_min_bits : N := %d%%N.\n", math.Float64bits(geohash.WGS84_LONG_MIN))
